@@ -1,37 +1,85 @@
 package main
 
 import (
-	"bytes"
-	"encoding/binary"
 	"fmt"
 	"os"
+	"strings"
 
+	"encoding/binary"
 	"github.com/gogpu/naga"
+
 	"github.com/gogpu/naga/ir"
 	"github.com/gogpu/naga/spirv"
+	"verif/internal/spvx"
+	"verif/internal/xrt"
 )
 
-func lower(p string) *ir.Module {
-	b, _ := os.ReadFile(p)
-	src := string(b)
-	ast, _ := naga.Parse(src)
-	m, _ := naga.LowerWithSource(ast, src)
-	return m
-}
-
 func main() {
-	be := spirv.NewBackend(spirv.Options{Version: spirv.Version1_3})
-	n := len(os.Args)
-	for _, a := range os.Args[1 : n-1] {
-		be.Compile(lower(a))
+	b, _ := os.ReadFile(os.Args[1])
+	src := string(b)
+	ast, err := naga.Parse(src)
+	if err != nil {
+		fmt.Println(err)
+		return
 	}
-	got, err1 := be.Compile(lower(os.Args[n-1]))
-	want, err2 := spirv.NewBackend(spirv.Options{Version: spirv.Version1_3}).Compile(lower(os.Args[n-1]))
-	fmt.Println(err1, err2, len(got), len(want), bytes.Equal(got, want))
-	for i := 0; i+4 <= len(got) && i+4 <= len(want); i += 4 {
-		if g, w := binary.LittleEndian.Uint32(got[i:]), binary.LittleEndian.Uint32(want[i:]); g != w {
-			fmt.Printf("first diff at word %d: reused %08x fresh %08x\n", i/4, g, w)
-			break
+	m, err := naga.LowerWithSource(ast, src)
+	if err != nil {
+		fmt.Println(err)
+		return
+	}
+	for _, o := range m.Overrides {
+		fmt.Printf("override %s id=%v init=%v\n", o.Name, o.ID, o.Init)
+	}
+	if len(os.Args) > 2 && os.Args[2] == "mslpc" {
+		pc := map[string]float64{}
+		for _, a := range os.Args[3:] {
+			var k string
+			var v float64
+			fmt.Sscanf(a, "%[^=]=%g", &k, &v)
+			kv := strings.SplitN(a, "=", 2)
+			k = kv[0]
+			fmt.Sscan(kv[1], &v)
+			pc[k] = v
 		}
+		mslPC(m, pc)
+		return
+	}
+	mc := ir.CloneModuleForOverrides(m)
+	err = ir.ProcessOverrides(mc, ir.PipelineConstants{})
+	fmt.Println("ProcessOverrides:", err)
+	if err != nil {
+		return
+	}
+	if len(os.Args) > 2 && os.Args[2] == "dump" {
+		dump(mc)
+	}
+	if len(os.Args) > 2 && os.Args[2] == "text" {
+		texts(mc)
+	}
+	bin, err := naga.GenerateSPIRV(mc, spirv.Options{Version: spirv.Version1_3})
+	if err != nil {
+		fmt.Println("SPIRV:", err)
+		return
+	}
+	os.WriteFile("/tmp/w/out.spv", bin, 0o644)
+	sm, err := spvx.Parse(bin)
+	if err != nil {
+		fmt.Println("spvx parse:", err)
+		return
+	}
+	bufs := xrt.Buffers{}
+	for _, g := range mc.GlobalVariables {
+		if g.Binding != nil {
+			bufs[xrt.Slot{A: g.Binding.Group, B: g.Binding.Binding}] = make([]byte, 256)
+		}
+	}
+	res, err := spvx.Run(sm, mc.EntryPoints[0].Name, bufs, xrt.Options{TrapMode: true})
+	fmt.Println("err:", err, res.Traps)
+	for k, v := range bufs {
+		fmt.Print(k, ":")
+		for i := 0; i < 16; i++ {
+			fmt.Printf(" %x", binary.LittleEndian.Uint32(v[i*4:]))
+		}
+		fmt.Println()
 	}
 }
